@@ -1,6 +1,6 @@
 import RTV.Drv.Proto
 import RTV.Model.NumCjk
-/-! Driver handlers for `RTV.NumCjk` (the whole `CJKNumberParser`; C04 / C03). Prefix `cj.`; `<w>` = `zh` | `ja`.
+/-! Driver handlers for `RTV.NumCjk` (the whole `CJKNumberParser`; C04 / C03). Prefix `cj.`; `<w>` = `zh` | `ja` | `zhfx` | `jafx` (fx = the repaired point-value variant).
 Values on the wire: `i <int>` | `f <sign> <num> <den>` (binary64 as an exact fraction in lowest terms, sign 1 = negative)
 | `d <sign> <coeff> <exp>` (Decimal.as_tuple()); errors `err:<Kind>`.
   parse <w> <data cps> <text cps>      (CJKNumberParser.parse)            -> value|resolution cps
@@ -21,7 +21,9 @@ namespace RTV.Drv.NumCjkD
 open RTV.Py RTV.Dec RTV.NumCjk RTV.Drv
 open RTV.NumCjk (Err)
 
-def cfgOf (w : String) : Cfg := if w == "ja" then jaCfg else zhCfg
+/-- `zh` / `ja`: the code as first found; `zhfx` / `jafx`: the repaired `add_point_value` variant -/
+def cfgOf (w : String) : Cfg :=
+  if w == "ja" then jaCfg else if w == "jafx" then jaCfgFx else if w == "zhfx" then zhCfgFx else zhCfg
 
 def showErr : NumCjk.Err → String
   | .keyError => "err:KeyError"
